@@ -64,7 +64,8 @@ def tmpdir():
 
 # ------------------------------------------------------------------------------------------ generators
 ROUTE_STARTS = ["from_list", "one_by_one", "scenario_net", "scenario_each"]
-ROUTE_STEPS = ["add", "add_dup", "remove", "lazy", "add_from", "deepcopy", "deepcopy_self", "pickle", "xml", "pb", "cutout",
+_FORKS = []
+ROUTE_STEPS = ["add", "add_dup", "remove", "lazy", "fork", "add_from", "deepcopy", "deepcopy_self", "pickle", "xml", "pb", "cutout",
                "scenario_copy"]
 
 
@@ -119,6 +120,14 @@ def gen_route(rng, net):
                 route.append(["remove", i])
             else:
                 route.append(["remove_absent", 99999])
+        elif op == "fork" and present:
+            # a deep copy of the network is edited (a lanelet removed / one added there); the ORIGINAL then rebuilds its
+            # index (a default-rtree call that changes nothing) and is queried: copies must not share index state
+            if rest and rng.random() < 0.4:
+                route.append(["fork_add", rest[-1]])
+            else:
+                route.append(["fork_remove", rng.choice(present)])
+            route.append(["remove_absent", 99999])
         elif op == "add_from" and rest:
             m = rng.randint(1, len(rest))
             part, rest = rest[:m], rest[m:]
@@ -435,6 +444,16 @@ def run_route(case):
                 net.remove_lanelet(step[1])
                 sc = None
                 ops.append(("remove", step[1]))
+            elif op in ("fork_remove", "fork_add"):
+                other = copy.deepcopy(net)
+                if op == "fork_remove":
+                    other.remove_lanelet(step[1])
+                else:
+                    (la, _m), = fresh_lanelets([step[1]])
+                    other.add_lanelet(la)
+                _FORKS.append(other)      # stays alive: identity-keyed index entries must not be recycled
+                del _FORKS[:-4]
+                ops.append(("deepcopy_self",))
             elif op == "add_from":
                 ls = fresh_lanelets(step[1])
                 other = LaneletNetwork()
